@@ -132,7 +132,7 @@ SPECS['C03'] = dict(
 SPECS['C12'] = dict(
     title='Resource lets readers share',
     jobs=lambda tier, seed: (
-        rw_jobs('C12', (12, 400), (1500, 60000), stress_args=['wp=0'], pattern_args=['rdv=1000'], variants=('mon', 'mon-ndebug'))(tier, seed)
+        rw_jobs('C12', (12, 400), (1500, 60000), stress_args=['wp=0'], pattern_args=['rdv=700'], variants=('mon', 'mon-ndebug'))(tier, seed)
         + rw_jobs('C12', (8, 300), (0, 0), variants=('mon',))(tier, seed + 1)),
     require={'any': {'readersNoWriter': 20000, 'rendezvous': 500, 'rendezvousReaders': 1000, 'readerParksJudged': 100}},
     evidence=rw_evidence('(a) writer-free stress (4-32 readers): no read request may enter cond_wait; mixed stress: a reader may park only if '
